@@ -141,6 +141,7 @@ where
 }
 
 pub fn run(ctx: &mut Ctx) {
+    crate::c04::wide_crash_flags(ctx);
     for kind in NETS {
         for lossy in [false, true] {
             for max_crashes in 0..=2usize {
